@@ -7,8 +7,13 @@ import io
 import json
 import multiprocessing
 import os
+import pickle
+import select
 import shutil
+import signal
+import struct
 import tempfile
+import time
 
 from .. import failsym, mapgen, mapsym, pipegen
 from ..coqlit import Err, cbool, clist, cnat, cstr
@@ -249,38 +254,99 @@ def _effectively_sequential(c):
             and all(len(g) == 1 for g in c["gens"]))
 
 
-def _run_map(c):
-    req, mode = c["req"], c["mode"]
-    tmp = tempfile.mkdtemp(prefix="verif_c13_", dir=TMP_BASE)
+def _run_map_body(c, tmp, limit):
+    """One map call and everything observed afterwards.  `limit`: in-process SIGALRM limit (sequential runs only)."""
+    req = c["req"]
     sink = io.StringIO()
+    log = FileLog(os.path.join(tmp, "calls.log"))
+    folder = os.path.join(tmp, "run")
     try:
-        log = FileLog(os.path.join(tmp, "calls.log"))
-        folder = os.path.join(tmp, "run")
+        pl = failsym.build_map(req, log, c["tgt"], c["exc"])
+    except Exception:  # noqa: BLE001
+        return ["bad-case"]
+    exc = None
+    try:
+        with contextlib.ExitStack() as stack:
+            if limit:
+                stack.enter_context(failsym.time_limit(limit))
+            stack.enter_context(contextlib.redirect_stdout(sink))
+            stack.enter_context(contextlib.redirect_stderr(sink))
+            _map_call(pl, c, folder)
+    except failsym.HarnessTimeout:
+        return Err("Timeout")
+    except Exception as e:  # noqa: BLE001
+        exc = e
+    lines = log.read()
+    if not _effectively_sequential(c):
+        lines = sorted(lines)
+    if exc is None:
+        res, note = ["ok"], ["notes", 0]
+    else:
+        res = _exc_obs(exc, c["exc"])
+        note = failsym.notes_obs(exc, mapsym.canon) if getattr(exc, "__notes__", None) else ["notes", 0]
+    snap = _snap_obs(pl, c["ffn"], mapsym.canon)     # process pools: nothing is set in this process
+    by_name = {f["name"]: f for f in req["funcs"]}
+    store = _stored_obs([o for g in c["gens"] for n in g for o in by_name[n]["outs"]], folder)
+    return [res, note, lines, snap, store]
+
+
+def _forked(fn, timeout):
+    """Run fn() in a forked child (own process group) under a HARD timeout: a hang of an executor, of a worker
+    process or of an interpreter shutdown can never hang the check.  Returns fn()'s value, or Err("Timeout")."""
+    r, w = os.pipe()
+    pid = os.fork()
+    if pid == 0:                                            # child
         try:
-            pl = failsym.build_map(req, log, c["tgt"], c["exc"])
-        except Exception:  # noqa: BLE001
-            return ["bad-case"]
-        exc = None
-        try:
-            with failsym.time_limit(TIMEOUT_S), contextlib.redirect_stdout(sink), contextlib.redirect_stderr(sink):
-                _map_call(pl, c, folder)
-        except failsym.HarnessTimeout:
-            _kill_children()
-            return Err("Timeout")
-        except Exception as e:  # noqa: BLE001
-            exc = e
-        lines = log.read()
-        if not _effectively_sequential(c):
-            lines = sorted(lines)
-        if exc is None:
-            res, note = ["ok"], ["notes", 0]
-        else:
-            res = _exc_obs(exc, c["exc"])
-            note = failsym.notes_obs(exc, mapsym.canon) if getattr(exc, "__notes__", None) else ["notes", 0]
-        snap = _snap_obs(pl, c["ffn"], mapsym.canon)     # process pools: nothing is set in this process
-        by_name = {f["name"]: f for f in req["funcs"]}
-        store = _stored_obs([o for g in c["gens"] for n in g for o in by_name[n]["outs"]], folder)
-        return [res, note, lines, snap, store]
+            os.close(r)
+            with contextlib.suppress(OSError):
+                os.setsid()
+            try:
+                data = pickle.dumps(("ok", fn()))
+            except BaseException as e:  # noqa: BLE001
+                data = pickle.dumps(("exc", f"{type(e).__name__}: {e}"[:300]))
+            data = struct.pack("<Q", len(data)) + data
+            while data:
+                n = os.write(w, data)
+                data = data[n:]
+        finally:
+            os._exit(0)
+    os.close(w)
+    deadline = time.monotonic() + timeout
+    buf = b""
+    need = None
+    try:
+        while need is None or len(buf) < need:
+            left = deadline - time.monotonic()
+            if left <= 0 or not select.select([r], [], [], left)[0]:
+                return Err("Timeout")
+            chunk = os.read(r, 1 << 16)
+            if not chunk:
+                break
+            buf += chunk
+            if need is None and len(buf) >= 8:
+                need = 8 + struct.unpack("<Q", buf[:8])[0]
+    finally:
+        os.close(r)
+        for sig_target in (os.killpg, os.kill):             # the child, its pool workers and manager processes
+            with contextlib.suppress(OSError):
+                sig_target(pid, signal.SIGKILL)
+        with contextlib.suppress(OSError):
+            os.waitpid(pid, 0)
+    if need is None or len(buf) < need:
+        return Err("ChildDied")
+    tag, val = pickle.loads(buf[8:need])
+    return val if tag == "ok" else Err("ChildFailed: " + val)
+
+
+def _run_map(c):
+    tmp = tempfile.mkdtemp(prefix="verif_c13_", dir=TMP_BASE)
+    try:
+        if _base(c["mode"]) == "seq":
+            o = _run_map_body(c, tmp, TIMEOUT_S)             # plain Python in this thread: SIGALRM interrupts it
+            if isinstance(o, Err):
+                _kill_children()
+            return o
+        return _forked(lambda: _run_map_body(c, tmp, None), TIMEOUT_S)
     finally:
         shutil.rmtree(tmp, ignore_errors=True)
 
